@@ -1,9 +1,15 @@
 import Model.Mat32
 import Model.Mat64
+import Proofs.F32Dot
+import Proofs.F64Dot
+import Proofs.F32Div
+import Proofs.F64Div
 /-! C19 — 3x3 algebra: the exact clauses, generic in the element values (hence for every f32/f64 bit pattern, both FMA
 modes): transpose is an exact involution, `mul_vec` and `mul_arr` are the same expression, `scalar_div` and
 `component_mul` are element-wise, rows of `mul_mat` are `mul_vec` of the transposed operand. The accuracy clauses
-(1e-5 relative; A*invert(A) = I within 1e-4) are checked by correspondence + the exact oracle, not proved (partial). -/
+are proved below over the reals for finite entries of magnitude <= 2, both formats, both FMA modes: `mul_vec`/`mul_arr`, `mul_mat`, `dot`, `cross`,
+`component_mul`, `scalar_div` are within 1e-5*max(1,|exact|) of the exact result (in fact within 3e-6 absolute). NOT proved: `A*invert(A) = I` within
+1e-4 and the bit-exact identity() clause (correspondence + exact oracle). -/
 namespace C19
 
 theorem transpose_involution32 (m : Mat32.M3) : m.transpose.transpose = m := rfl
@@ -23,5 +29,127 @@ theorem mulArr_def32 (fm : Bool) (m : Mat32.M3) (v : Mat32.V3) :
     Mat32.M3.mulArr fm m v = ⟨Mat32.fmadd fm m.r1.x v.x (Mat32.fmadd fm m.r1.y v.y (F32.mul m.r1.z v.z)),
       Mat32.fmadd fm m.r2.x v.x (Mat32.fmadd fm m.r2.y v.y (F32.mul m.r2.z v.z)),
       Mat32.fmadd fm m.r3.x v.x (Mat32.fmadd fm m.r3.y v.y (F32.mul m.r3.z v.z))⟩ := rfl
+
+/-! ### accuracy (real semantics of the softfloat model) -/
+section accuracy
+open Real
+
+theorem rel_of_abs (a e : ℝ) (h : |a - e| ≤ 3 / 1000000) : |a - e| ≤ 1 / 100000 * max 1 |e| := by
+  have : (1:ℝ) ≤ max 1 |e| := le_max_left _ _
+  linarith
+
+/-- entries finite and of magnitude at most 2 -/
+abbrev Ok32 (v : Mat32.V3) : Prop := F32.V3.Ok v
+abbrev OkM32 (m : Mat32.M3) : Prop := F32.M3.Ok m
+abbrev Ok64 (v : Mat64.V3) : Prop := F64.V3.Ok v
+abbrev OkM64 (m : Mat64.M3) : Prop := F64.M3.Ok m
+
+/-- `mul_vec` / `mul_arr` equal the exact matrix-vector product within 1e-5*max(1,|exact|), binary32 -/
+theorem mulVec_accurate32 (fm : Bool) (m : Mat32.M3) (v : Mat32.V3) (hm : OkM32 m) (hv : Ok32 v) :
+    |F32.toReal (Mat32.M3.mulArr fm m v).x - F32.rdot m.r1 v| ≤ 1 / 100000 * max 1 |F32.rdot m.r1 v| ∧
+    |F32.toReal (Mat32.M3.mulArr fm m v).y - F32.rdot m.r2 v| ≤ 1 / 100000 * max 1 |F32.rdot m.r2 v| ∧
+    |F32.toReal (Mat32.M3.mulArr fm m v).z - F32.rdot m.r3 v| ≤ 1 / 100000 * max 1 |F32.rdot m.r3 v| := by
+  obtain ⟨h1, h2, h3⟩ := F32.mulArr_close fm m v hm hv
+  exact ⟨rel_of_abs _ _ h1, rel_of_abs _ _ h2, rel_of_abs _ _ h3⟩
+
+theorem mulVec_accurate64 (fm : Bool) (m : Mat64.M3) (v : Mat64.V3) (hm : OkM64 m) (hv : Ok64 v) :
+    |F64.toReal (Mat64.M3.mulArr fm m v).x - F64.rdot m.r1 v| ≤ 1 / 100000 * max 1 |F64.rdot m.r1 v| ∧
+    |F64.toReal (Mat64.M3.mulArr fm m v).y - F64.rdot m.r2 v| ≤ 1 / 100000 * max 1 |F64.rdot m.r2 v| ∧
+    |F64.toReal (Mat64.M3.mulArr fm m v).z - F64.rdot m.r3 v| ≤ 1 / 100000 * max 1 |F64.rdot m.r3 v| := by
+  obtain ⟨h1, h2, h3⟩ := F64.mulArr_close fm m v hm hv
+  exact ⟨rel_of_abs _ _ h1, rel_of_abs _ _ h2, rel_of_abs _ _ h3⟩
+
+/-- `dot` -/
+theorem dot_accurate32 (fm : Bool) (s o : Mat32.V3) (hs : Ok32 s) (ho : Ok32 o) :
+    |F32.toReal (Mat32.V3.dot fm s o) - F32.rdot s o| ≤ 1 / 100000 * max 1 |F32.rdot s o| := rel_of_abs _ _ (F32.dot_close fm s o hs ho)
+theorem dot_accurate64 (fm : Bool) (s o : Mat64.V3) (hs : Ok64 s) (ho : Ok64 o) :
+    |F64.toReal (Mat64.V3.dot fm s o) - F64.rdot s o| ≤ 1 / 100000 * max 1 |F64.rdot s o| := rel_of_abs _ _ (F64.dot_close fm s o hs ho)
+
+/-- `cross` -/
+theorem cross_accurate32 (fm : Bool) (s o : Mat32.V3) (hs : Ok32 s) (ho : Ok32 o) :
+    let t := F32.toReal
+    |t (Mat32.V3.cross fm s o).x - (t s.y * t o.z - t s.z * t o.y)| ≤ 1 / 100000 * max 1 |t s.y * t o.z - t s.z * t o.y| ∧
+    |t (Mat32.V3.cross fm s o).y - (t s.z * t o.x - t s.x * t o.z)| ≤ 1 / 100000 * max 1 |t s.z * t o.x - t s.x * t o.z| ∧
+    |t (Mat32.V3.cross fm s o).z - (t s.x * t o.y - t s.y * t o.x)| ≤ 1 / 100000 * max 1 |t s.x * t o.y - t s.y * t o.x| := by
+  obtain ⟨h1, h2, h3⟩ := F32.cross_close fm s o hs ho
+  exact ⟨rel_of_abs _ _ h1, rel_of_abs _ _ h2, rel_of_abs _ _ h3⟩
+theorem cross_accurate64 (fm : Bool) (s o : Mat64.V3) (hs : Ok64 s) (ho : Ok64 o) :
+    let t := F64.toReal
+    |t (Mat64.V3.cross fm s o).x - (t s.y * t o.z - t s.z * t o.y)| ≤ 1 / 100000 * max 1 |t s.y * t o.z - t s.z * t o.y| ∧
+    |t (Mat64.V3.cross fm s o).y - (t s.z * t o.x - t s.x * t o.z)| ≤ 1 / 100000 * max 1 |t s.z * t o.x - t s.x * t o.z| ∧
+    |t (Mat64.V3.cross fm s o).z - (t s.x * t o.y - t s.y * t o.x)| ≤ 1 / 100000 * max 1 |t s.x * t o.y - t s.y * t o.x| := by
+  obtain ⟨h1, h2, h3⟩ := F64.cross_close fm s o hs ho
+  exact ⟨rel_of_abs _ _ h1, rel_of_abs _ _ h2, rel_of_abs _ _ h3⟩
+
+/-- `component_mul` -/
+theorem cmul_accurate32 (s o : Mat32.V3) (hs : Ok32 s) (ho : Ok32 o) :
+    let t := F32.toReal
+    |t (Mat32.V3.cmul s o).x - t s.x * t o.x| ≤ 1 / 100000 * max 1 |t s.x * t o.x| ∧ |t (Mat32.V3.cmul s o).y - t s.y * t o.y| ≤ 1 / 100000 * max 1 |t s.y * t o.y| ∧
+    |t (Mat32.V3.cmul s o).z - t s.z * t o.z| ≤ 1 / 100000 * max 1 |t s.z * t o.z| := by
+  obtain ⟨h1, h2, h3⟩ := F32.cmul_close s o hs ho
+  exact ⟨rel_of_abs _ _ h1, rel_of_abs _ _ h2, rel_of_abs _ _ h3⟩
+theorem cmul_accurate64 (s o : Mat64.V3) (hs : Ok64 s) (ho : Ok64 o) :
+    let t := F64.toReal
+    |t (Mat64.V3.cmul s o).x - t s.x * t o.x| ≤ 1 / 100000 * max 1 |t s.x * t o.x| ∧ |t (Mat64.V3.cmul s o).y - t s.y * t o.y| ≤ 1 / 100000 * max 1 |t s.y * t o.y| ∧
+    |t (Mat64.V3.cmul s o).z - t s.z * t o.z| ≤ 1 / 100000 * max 1 |t s.z * t o.z| := by
+  obtain ⟨h1, h2, h3⟩ := F64.cmul_close s o hs ho
+  exact ⟨rel_of_abs _ _ h1, rel_of_abs _ _ h2, rel_of_abs _ _ h3⟩
+
+/-- `mul_mat`: every entry is within 1e-5*max(1,|exact|) of the exact row-by-column product -/
+theorem mulMat_accurate32 (fm : Bool) (a b : Mat32.M3) (ha : OkM32 a) (hb : OkM32 b) :
+    let c1 : Mat32.V3 := ⟨b.r1.x, b.r2.x, b.r3.x⟩; let c2 : Mat32.V3 := ⟨b.r1.y, b.r2.y, b.r3.y⟩; let c3 : Mat32.V3 := ⟨b.r1.z, b.r2.z, b.r3.z⟩
+    let p := Mat32.M3.mulMat fm a b
+    let ok := fun (x : Nat) (r c : Mat32.V3) => |F32.toReal x - F32.rdot r c| ≤ 1 / 100000 * max 1 |F32.rdot r c|
+    (ok p.r1.x a.r1 c1 ∧ ok p.r1.y a.r1 c2 ∧ ok p.r1.z a.r1 c3) ∧ (ok p.r2.x a.r2 c1 ∧ ok p.r2.y a.r2 c2 ∧ ok p.r2.z a.r2 c3) ∧
+    (ok p.r3.x a.r3 c1 ∧ ok p.r3.y a.r3 c2 ∧ ok p.r3.z a.r3 c3) := by
+  intro c1 c2 c3 p ok
+  obtain ⟨⟨h1, h2, h3⟩, ⟨h4, h5, h6⟩, ⟨h7, h8, h9⟩⟩ := F32.mulMat_close fm a b ha hb
+  exact ⟨⟨rel_of_abs _ _ h1, rel_of_abs _ _ h2, rel_of_abs _ _ h3⟩, ⟨rel_of_abs _ _ h4, rel_of_abs _ _ h5, rel_of_abs _ _ h6⟩, ⟨rel_of_abs _ _ h7, rel_of_abs _ _ h8, rel_of_abs _ _ h9⟩⟩
+theorem mulMat_accurate64 (fm : Bool) (a b : Mat64.M3) (ha : OkM64 a) (hb : OkM64 b) :
+    let c1 : Mat64.V3 := ⟨b.r1.x, b.r2.x, b.r3.x⟩; let c2 : Mat64.V3 := ⟨b.r1.y, b.r2.y, b.r3.y⟩; let c3 : Mat64.V3 := ⟨b.r1.z, b.r2.z, b.r3.z⟩
+    let p := Mat64.M3.mulMat fm a b
+    let ok := fun (x : Nat) (r c : Mat64.V3) => |F64.toReal x - F64.rdot r c| ≤ 1 / 100000 * max 1 |F64.rdot r c|
+    (ok p.r1.x a.r1 c1 ∧ ok p.r1.y a.r1 c2 ∧ ok p.r1.z a.r1 c3) ∧ (ok p.r2.x a.r2 c1 ∧ ok p.r2.y a.r2 c2 ∧ ok p.r2.z a.r2 c3) ∧
+    (ok p.r3.x a.r3 c1 ∧ ok p.r3.y a.r3 c2 ∧ ok p.r3.z a.r3 c3) := by
+  intro c1 c2 c3 p ok
+  obtain ⟨⟨h1, h2, h3⟩, ⟨h4, h5, h6⟩, ⟨h7, h8, h9⟩⟩ := F64.mulMat_close fm a b ha hb
+  exact ⟨⟨rel_of_abs _ _ h1, rel_of_abs _ _ h2, rel_of_abs _ _ h3⟩, ⟨rel_of_abs _ _ h4, rel_of_abs _ _ h5, rel_of_abs _ _ h6⟩, ⟨rel_of_abs _ _ h7, rel_of_abs _ _ h8, rel_of_abs _ _ h9⟩⟩
+
+/-- `scalar_div`: each component is within 1e-5*max(1,|exact|) of the real quotient, for any finite non-zero divisor
+whose quotient does not overflow (relative error of one division) -/
+theorem sdiv1_32 (a d : Nat) (ha : F32.Finite a) (hd : F32.Finite d) (hd0 : F32.toReal d ≠ 0) (hfit : |F32.toReal a / F32.toReal d| ≤ (2:ℝ)^(126:ℤ)) :
+    |F32.toReal (F32.div a d) - F32.toReal a / F32.toReal d| ≤ 1 / 100000 * max 1 |F32.toReal a / F32.toReal d| := by
+  obtain ⟨_, h⟩ := F32.div_val a d ha hd hd0 hfit
+  have hu : F32.ud ≤ 1 / 1000000 := by unfold F32.ud; rw [F32.u_val]; norm_num
+  have he := F32.eta_le
+  have hq := abs_nonneg (F32.toReal a / F32.toReal d)
+  have h1 : (1:ℝ) ≤ max 1 |F32.toReal a / F32.toReal d| := le_max_left _ _
+  have h2 : |F32.toReal a / F32.toReal d| ≤ max 1 |F32.toReal a / F32.toReal d| := le_max_right _ _
+  have : F32.ud * |F32.toReal a / F32.toReal d| ≤ 1 / 1000000 * max 1 |F32.toReal a / F32.toReal d| := mul_le_mul hu h2 hq (by norm_num)
+  have he' : F32.eta ≤ 1 / 1000000 := le_trans he (by norm_num)
+  linarith
+theorem sdiv1_64 (a d : Nat) (ha : F64.Finite a) (hd : F64.Finite d) (hd0 : F64.toReal d ≠ 0) (hfit : |F64.toReal a / F64.toReal d| ≤ (2:ℝ)^(1022:ℤ)) :
+    |F64.toReal (F64.div a d) - F64.toReal a / F64.toReal d| ≤ 1 / 100000 * max 1 |F64.toReal a / F64.toReal d| := by
+  obtain ⟨_, h⟩ := F64.div_val a d ha hd hd0 hfit
+  have hu : F64.ud ≤ 1 / 1000000 := by unfold F64.ud; rw [F64.u_val]; norm_num
+  have he := F64.eta_le
+  have hq := abs_nonneg (F64.toReal a / F64.toReal d)
+  have h1 : (1:ℝ) ≤ max 1 |F64.toReal a / F64.toReal d| := le_max_left _ _
+  have h2 : |F64.toReal a / F64.toReal d| ≤ max 1 |F64.toReal a / F64.toReal d| := le_max_right _ _
+  have : F64.ud * |F64.toReal a / F64.toReal d| ≤ 1 / 1000000 * max 1 |F64.toReal a / F64.toReal d| := mul_le_mul hu h2 hq (by norm_num)
+  have he' : F64.eta ≤ 1 / 1000000 := le_trans he (by norm_num)
+  linarith
+
+/-- non-vacuity: the identity matrix and the vector (1,1,1) satisfy the hypotheses -/
+example : OkM32 Mat32.M3.identity ∧ Ok32 ⟨0x3f800000, 0x3f800000, 0x3f800000⟩ := by
+  have one : F32.Bnd 0x3f800000 2 := ⟨⟨false, 8388608, -23, by rfl⟩, by rw [F32.toReal_of_decode _ false 8388608 (-23) (by rfl), F32.abs_valR]; norm_num⟩
+  have zero : F32.Bnd 0 2 := ⟨⟨false, 0, -149, by rfl⟩, by rw [F32.toReal_of_decode _ false 0 (-149) (by rfl), F32.abs_valR]; norm_num⟩
+  have h1 : Mat32.idLit 0 = 0x3f800000 ∧ Mat32.idLit 1 = 0 ∧ Mat32.idLit 2 = 0 ∧ Mat32.idLit 3 = 0 ∧ Mat32.idLit 4 = 0x3f800000 ∧ Mat32.idLit 5 = 0 ∧
+      Mat32.idLit 6 = 0 ∧ Mat32.idLit 7 = 0 ∧ Mat32.idLit 8 = 0x3f800000 := by decide
+  obtain ⟨a0, a1, a2, a3, a4, a5, a6, a7, a8⟩ := h1
+  refine ⟨⟨⟨?_, ?_, ?_⟩, ⟨?_, ?_, ?_⟩, ⟨?_, ?_, ?_⟩⟩, ⟨one, one, one⟩⟩ <;>
+    simp only [Mat32.M3.identity, a0, a1, a2, a3, a4, a5, a6, a7, a8] <;> first | exact one | exact zero
+
+end accuracy
 
 end C19
